@@ -65,8 +65,10 @@ Definition chip_entries (c : kchip) : list tentry :=
                    t_label := to_fres k_text (ks_label s) |}) (filter sensor_visible (kc_sensors c)).
 Definition hwmon_entries (chips : list kchip) : list tentry := flat_map chip_entries chips.
 
-(* /sys/devices/platform/coretemp.N/hwmon/hwmonK/tempM_* : psutil appends every such FILE name to the list of
-   basenames (after the sort), so the entry's "<name>_input" never exists *)
+(* /sys/devices/platform/coretemp.N/hwmon/hwmonK/tempM_* : the code before commit 64999d5 appended every such FILE
+   name to the list of basenames (after the sort), so the entry's "<name>_input" never existed.  (Now the platform
+   basenames not already listed below /sys/class/hwmon are appended: the entry list is
+   [hwmon_entries chips ++ hwmon_entries plat].) *)
 Definition absent_entry (name : kf bytes) : tentry :=
   {| t_input := FAbsent; t_name := to_fres k_text name; t_max := FAbsent; t_crit := FAbsent; t_label := FAbsent |}.
 Definition n_files (s : ksensor) : nat :=
@@ -416,12 +418,13 @@ Definition cline_ok (l : cline) : bool :=
   | CProcessor n | CPhysId n | CCoreId n | CCores n => is_dec n
   | CMhz ip fp => is_dec ip && is_dec fp
   | COther k _ v =>
-    key_ok k && value_ok v && negb (prefixb (bs "cpu mhz") (lower k))
+    key_ok k && value_ok v && negb (prefixb (bs "processor") k) && negb (prefixb (bs "cpu mhz") (lower k))
     && negb (prefixb (bs "physical id") (lower k)) && negb (prefixb (bs "cpu cores") (lower k))
   end.
 Definition cpuinfo_ok (blocks : list cblock) : bool := forallb (forallb cline_ok) blocks.
 
-(* an "other" key that reads "processor..." when lower-cased: the ARM "Processor : ARMv7 ..." model line *)
+(* an "other" key that reads "processor..." when lower-cased: the ARM "Processor : ARMv7 ..." model line
+   (only the code before commit d196a16 was sensitive to it) *)
 Definition processor_like (l : cline) : bool :=
   match l with COther k _ _ => prefixb (bs "processor") (lower k) | _ => false end.
 Definition no_processor_like (blocks : list cblock) : bool :=
